@@ -28,6 +28,8 @@ REQUIRED_THEOREMS = [
     "TapkeeVerif.Dijkstra.rows_independent",
     "TapkeeVerif.Dijkstra.allPairs_schedule_independent",
     "TapkeeVerif.Dijkstra.isShortestPathMatrix_sound",
+    "TapkeeVerif.Dijkstra.fib_build_refines_indexed",
+    "TapkeeVerif.Dijkstra.fib_build_exact",
     "TapkeeVerif.IsomapPre.center_eq_JAJ",
     "TapkeeVerif.IsomapPre.isomap_is_cmds",
     "TapkeeVerif.IsomapPre.isomapPre_symm",
@@ -209,6 +211,24 @@ def g_structured(r, N, k):
 GENS = [("knn", g_knn), ("digraph", g_digraph), ("clusters", g_clusters), ("structured", g_structured)]
 
 
+def g_malformed(r, N, k):
+    """inputs outside the routine's contract, on which the code has undefined behaviour and the model its explicit
+    `oob` state: a list shorter than neighbors[0], an entry == N, a landmark == N (all reachable from every source:
+    the graph contains a Hamiltonian cycle)"""
+    W = [[0 if i == j else 1 for j in range(N)] for i in range(N)]
+    lists = [[(i + 1) % N] + [r.below(N) for _ in range(k - 1)] for i in range(N)]
+    kind = r.choice(["short-list", "entry=N", "landmark=N"])
+    c = Geo(lists, W, [r.below(N)], "malformed:" + kind)
+    if kind == "short-list" and k >= 2:
+        c.lists[r.range(1, N - 1)].pop()
+    elif kind == "entry=N":
+        c.lists[r.below(N)][r.below(k)] = N
+        c.lists = [l if (i + 1) % N in l or N in l else l[:-1] + [(i + 1) % N] for i, l in enumerate(c.lists)]
+    else:
+        c.lm = c.lm + [N]
+    return c
+
+
 def all_subsets(n):
     for m in range(1, n + 1):
         for c in itertools.combinations(range(n), m):
@@ -287,6 +307,15 @@ def judge_geo(ctx, bins, cases, label, threads=THREADS, shrink_budget=120):
     for i in alt:
         for b in BUILDS:
             mlines.append(cases[i].line("heap=%s ch=%d " % (b, 1 + i % 7)))
+    # the Fibonacci build with the concrete heap model of C16 (its own tie-breaking), and pseudo-random schedules
+    # over garbage-filled thread scratch state: both must print what the sequential abstract model prints
+    fibheap = [i for i in range(len(cases)) if i % 3 == 0 and cases[i].N <= 48]
+    sched = [i for i in range(len(cases)) if i % 5 == 1 and cases[i].N <= 48]
+    nbase = len(mlines)
+    for i in fibheap:
+        mlines.append(cases[i].line("heap=fibheap "))
+    for i in sched:
+        mlines.append(cases[i].line("heap=%s sched=%d threads=%d " % (BUILDS[i % 2], 1 + i, 1 + i % 4)))
     mout = model_lines(ctx, mlines)
     if mout is None:
         return
@@ -298,6 +327,19 @@ def judge_geo(ctx, bins, cases, label, threads=THREADS, shrink_budget=120):
                 ctx.broken("model:tie-break-dependent:" + b, "TapkeeVerif.Dijkstra.backends_agree (model run)",
                            "the model's matrix depends on the queue's tie-breaking choice", case=mlines[base + 2 * n + j],
                            detail={"ch=0": model[(i, b)], "other": mout[base + 2 * n + j]})
+    for n, i in enumerate(fibheap):
+        ctx.stat("geo:model-with-C16-heap:" + ("identical" if mout[nbase + n] == model[(i, "fib")] else "DIFFERS"))
+        if mout[nbase + n] != model[(i, "fib")]:
+            ctx.broken("model:fibheap-differs", "TapkeeVerif.Dijkstra.fib_build_refines_indexed (model run)",
+                       "the Fibonacci build driven by the concrete heap model of C16 differs from the abstract indexed discipline",
+                       case=mlines[nbase + n], detail={"fibheap": mout[nbase + n], "indexed": model[(i, "fib")]})
+    for n, i in enumerate(sched):
+        o = mout[nbase + len(fibheap) + n]
+        ctx.stat("geo:model-schedule:" + ("identical" if o == model[(i, BUILDS[i % 2])] else "DIFFERS"))
+        if o != model[(i, BUILDS[i % 2])]:
+            ctx.broken("model:schedule-dependent", "TapkeeVerif.Dijkstra.rows_independent (model run)",
+                       "a scrambled schedule over garbage-filled scratch state gives a different matrix than the sequential model",
+                       case=mlines[nbase + len(fibheap) + n], detail={"scheduled": o, "sequential": model[(i, BUILDS[i % 2])]})
     # oracle on every distinct implementation observation
     distinct = {}
     for i, c in enumerate(cases):
@@ -331,6 +373,18 @@ def judge_geo(ctx, bins, cases, label, threads=THREADS, shrink_budget=120):
         for (b, t), outs in impl.items():
             o = outs[i]
             ctx.cov["traces_validated_against_impl"] += 1
+            if o.startswith("abort:") and "ERR:oob" in model[(i, b)]:
+                # undefined behaviour in the code <-> the model's explicit oob state (inputs outside the contract)
+                ctx.stat("geo:oob-agree(impl aborts, model ERR:oob):" + b)
+                continue
+            if c.tag.startswith("malformed") and "ERR:oob" in model[(i, b)] and not o.startswith("abort:"):
+                sig = "corr:geo:oob:" + b
+                if sig not in reported:
+                    reported.add(sig)
+                    ctx.broken(sig, "correspondence c04_geo (%s build): model oob state vs sanitizer abort" % b,
+                               "the model reaches its out-of-bounds state but the implementation ran to completion under ASan/UBSan",
+                               case=lines[i], detail={"build": b, "threads": t, "impl": o, "model": model[(i, b)]})
+                continue
             if o.startswith("abort:"):
                 sig = "geo:%s:abort:%s" % (b, o[6:])
                 if sig not in reported:
@@ -710,7 +764,7 @@ def correspond(ctx):
         judge_geo(ctx, bins["geo"], small[i:i + 1500], "small-all-landmark-subsets")
     ctx.log("small graphs with all landmark subsets: %d cases" % len(small))
     # 2. random graphs
-    ngraphs = 1200 if quick else 20000
+    ngraphs = 1200 if quick else 12000
     maxN = 32 if quick else 96
     batch = []
     for n in range(ngraphs):
@@ -728,6 +782,9 @@ def correspond(ctx):
         for i in range(0, len(sub), 500):
             judge_geo(ctx, bins["geo"], sub[i:i + 500], name)
     ctx.log("random graphs: %d cases" % len(batch))
+    # 2b. inputs outside the contract: the model's oob state must coincide with a sanitizer / assertion abort
+    mal = [g_malformed(r.fork(), r.range(3, 9), r.range(2, 3)) for _ in range(12 if quick else 60)]
+    judge_geo(ctx, bins["geo"], mal, "malformed", threads=[1, 3])
     # 3. thorough: exhaustive 1- and 2-out-regular digraphs on <= 4 vertices, unit weights, all landmark subsets
     if not quick:
         ex = []
@@ -744,7 +801,7 @@ def correspond(ctx):
         ctx.extra["exhaustive_small"] = {"digraphs": len(ex), "what": "all k-out lists, N<=3 k<=2 and N=4 k=1, unit weights"}
     # 4. Isomap end to end
     iso = []
-    niso = 90 if quick else 600
+    niso = 90 if quick else 300
     for n in range(niso):
         N = r.choice([8, 8, 16]) if quick else r.choice([8, 16, 16, 32])
         W, kind = (i_points if n % 3 else i_matrix)(r.fork(), N)
